@@ -1075,7 +1075,7 @@ func (q *seqRun) compareHTTP(v core.View, flags map[string]prunner.PipelineInfo)
 		q.find([]string{"C15"}, "C15:http-pipelines-jobs-failed", "%v", err)
 		return
 	}
-	q.res.sit("C15", fmt.Sprintf("http list pipelines=%d jobs=%d", len(pipes), len(jobs) > 0))
+	q.res.sit("C15", fmt.Sprintf("http list pipelines=%d jobs=%v", len(pipes), len(jobs) > 0))
 	for _, p := range pipes {
 		fl, ok := flags[p.Pipeline]
 		if !ok || fl.Schedulable != p.Schedulable || fl.Running != p.Running {
